@@ -24,7 +24,16 @@ def run(tier, seed):
             c["env"] = {"VM_END_CLUSTER": str((50, 30, 70)[(i // 4) % 3])}
             if (i // 4) % 2:
                 c["env"].update({"VM_FORCE_TS": "3", "VM_FORCE_RNG": "0"})
-    sim_common.run_sim_cases(chk, cases, timeout=300)
+    # many tiny runs (4-6 LPs on 2-3 threads, no sanitizer: the monitors do not need it) with clustered terminations and dense GVT values:
+    # the end game (all LPs of a thread done speculatively, stragglers undoing and redoing terminations) is most of such a run
+    n2 = 240 if tier == "quick" else 3000
+    tiny = sim_common.make_cases("C07", tier, seed + 31, n2, variants=(0,), fp_levels=(10, 2, 3, 10), sizes=(0,), threads=[2, 3, 2, 3, 4], gvts=[0, 0, 20, 0, 5],
+                                 flavours=("plain",))
+    for i, c in enumerate(tiny):
+        c["env"] = {"VM_END_CLUSTER": str((50, 30, 70)[i % 3]), "VM_FORCE_LPS": str(4 + i % 3)}
+        if i % 2:
+            c["env"].update({"VM_FORCE_TS": "3", "VM_FORCE_RNG": "0"})
+    sim_common.run_sim_cases(chk, cases + tiny, timeout=300)
     chk.rule = ("one case = (generated model: predicates true at init, first true after a handful of events (often at timestamp 0), targets reached "
                 "speculatively and rolled back, unbalanced LP-to-thread layouts incl. more threads than LPs; termination-time runs); non-trivial / distinct as C01")
     chk.assumptions = ["predicates of the model family are monotone (an LP freezes when its predicate holds); flip-back predicates are not generated"]
